@@ -90,7 +90,10 @@ class TimedTask {
       return;
     }
     cancel();
-    while (impl_->inProgress.load(std::memory_order_acquire)) {
+    // seq_cst pairs with the scheduler-side increment-then-test in TimedTaskImpl's func: once the
+    // flag is set and inProgress reads zero, no invocation is inside func or can enter it.
+    impl_->flags.fetch_or(detail::kFFlagsCancelled, std::memory_order_seq_cst);
+    while (impl_->inProgress.load(std::memory_order_seq_cst)) {
     }
     // Now we can safely destroy the underlying function.  We do this here because we can't risk
     // that func may call code in it's destructor that may no longer be relevant after this
